@@ -181,8 +181,8 @@ def make_requests(members, paths_all, paths_sample, sources):
                 if fn == "os.exit" and v == "code" and "go" in p:
                     continue  # exit(3) raises an error try() does not catch: the go thread would never answer
                 script, modules, hostclone = build_script(p, setup, cs, expr)
-                for s in sources + (["ctxwarm", "withoswarm", "withosvm", "ctxover", "withosafterctx", "withosonce"] if len(p) <= 1 else []):
-                    if "clonecall" in p and s not in ("withos", "withoswarm", "withosvm", "withosafterctx", "withosonce"):
+                for s in sources + (["ctxwarm", "withoswarm", "withosvm", "ctxover", "withosafterctx", "withosonce", "withosshared"] if len(p) <= 1 else []):
+                    if "clonecall" in p and s not in ("withos", "withoswarm", "withosvm", "withosafterctx", "withosonce", "withosshared"):
                         continue  # a context of the host callback's own carries no OS: only WithOS reaches the clone
                     reqs.append({"id": len(reqs), "fn": fn, "v": v, "path": list(p), "src": s, "script": script,
                                  "modules": modules, "hostclone": hostclone})
